@@ -266,14 +266,15 @@ TrDraws ==
              <<"C15.drawHappened", e.via = "new" => (hooked = n /\ allSite(e.site))>>,
              <<"C15.usedIsDrawn", e.via = "new" => \A k \in 1..hooked : e.obs[k] = e.used[k] /\ e.used[k] = e.raw[k]>> >>
         ELSE IF e.site = "MatrixDigits" THEN
-          LET all == FlattenSeq(e.obs)
-              freq(d) == Cardinality({k \in 1..Len(all) : all[k] = d}) IN
-          << <<"C15.digitRange", \A k \in 1..Len(all) : all[k] \in 0..9>>,
-             <<"C15.digitBias", LET low == Cardinality({k \in 1..Len(all) : all[k] <= 5})      \* digits 0..5: expected share 0.6
-                                    d == IF 10 * low >= 6 * Len(all) THEN 10 * low - 6 * Len(all) ELSE 6 * Len(all) - 10 * low
-                                IN 10 * d <= 343 * (ISqrt(Len(all)) + 1)>>,   \* |low - 0.6 n| <= 7 standard deviations (sd = sqrt(0.24 n))
+          \* counted card by card (TLC refuses to build sets of more than a million elements)
+          LET total == FoldLeft(LAMBDA acc, card : acc + Len(card), 0, e.obs)
+              count(P(_)) == FoldLeft(LAMBDA acc, card : acc + Cardinality({i \in 1..Len(card) : P(card[i])}), 0, e.obs)
+              low == count(LAMBDA d : d <= 5)                     \* digits 0..5: expected share 0.6
+              dev == IF 10 * low >= 6 * total THEN 10 * low - 6 * total ELSE 6 * total - 10 * low IN
+          << <<"C15.digitRange", count(LAMBDA d : d \in 0..9) = total>>,
+             <<"C15.digitBias", 10 * dev <= 343 * (ISqrt(total) + 1)>>,   \* |low - 0.6 n| <= 7 standard deviations (sd = sqrt(0.24 n))
              <<"C15.noRepeat", Distinct(e.obs)>>,
-             <<"C15.digitFrequency", \A d \in 0..9 : 20 * freq(d) >= Len(all) /\ 20 * freq(d) <= 3 * Len(all)>> >>
+             <<"C15.digitFrequency", \A d \in 0..9 : LET f == count(LAMBDA x : x = d) IN 20 * f >= total /\ 20 * f <= 3 * total>> >>
         ELSE << <<"H.unknownSite", FALSE>> >>,
         {"Draws", "Draws." \o e.site \o "." \o e.via})
 
